@@ -109,7 +109,7 @@ def all_cases(ctx):
             L = gs.catalogue_layout(lname, random.Random(f's{i}:{lname}'))
             cases.append(mkcase(prog, gs.render(prog, L), L.wrap_rhs, 'stress:' + lname, seed))
     rng = ctx.sub_rng('sampled')
-    n_big = (1500 if quick else 20000) * ctx.scale
+    n_big = (2500 if quick else 20000) * ctx.scale
     cfg = gs.GenConfig(max_equations=12, max_depth=4, max_lag=3, max_lead=2)
     cfg_deep = gs.GenConfig(max_equations=12, max_depth=3, max_lag=12, max_lead=10)
     for i in range(n_big):
@@ -130,7 +130,7 @@ def isolated_model(b, name):
         return fsic.build_model(syms)
 
 
-def observe(case, rep):
+def observe_(case, rep):
     prog = ec.j2p(case['prog'])
     text = case['text']
     eqs = ec.equations(prog)
@@ -256,6 +256,17 @@ def observe(case, rep):
              sample={'script': text, 'edges': impl['edges'][:8]} if rep.evaluations % 211 == 0 else None)
     rep.dist['equations:%d' % len(eqs)] += 1
     return impl
+
+
+def observe(case, rep):
+    try:
+        return observe_(case, rep)
+    except Exception as e:  # noqa: BLE001
+        import traceback
+        rep.violate('observation-failed',
+                    'the real code could not be observed: ' + ''.join(traceback.format_exception_only(type(e), e)).strip()[:300]
+                    + ' @ ' + traceback.format_tb(e.__traceback__)[-1].strip().replace('\n', ' ')[:200], case)
+        return None
 
 
 # ---- T ------------------------------------------------------------------------------------------------------------------
